@@ -36,8 +36,14 @@ def transformed_uspec(uspec: dict, var: dict) -> dict:
     return u
 
 
-def step_numeric(uspec, ops, values, opts, zero_d):
+def step_numeric(uspec, ops, values, opts, zero_d, keep=None):
     U, net = dyn.build(uspec, ops)
+    if keep is not None:
+        keep.extend((U, net))
+    return step_numeric_on(U, net, values, opts, zero_d)
+
+
+def step_numeric_on(U, net, values, opts, zero_d):
     eng = make_engine("numpy")
     ic = dyn.numeric_init(U, values, zero_d)
     net.step(init_conditions=ic, engine=eng, **opts)
@@ -134,7 +140,8 @@ def execute(trace: dict) -> Result:
     zero_d = cfg["zero_d"]
     canon_ops = dyn.canonical_ops(topo)
     try:
-        base = step_numeric(uspec, canon_ops, values, opts, zero_d)
+        used = []  # the canonical network object, kept and re-used ("a network with a past")
+        base = step_numeric(uspec, canon_ops, values, opts, zero_d, keep=used)
         res.log("canonical", core.H({r: {k: v.tobytes() for k, v in d.items()} for r, d in base.items()}))
         check_share(uspec, topo, values, opts, base, res, "canonical build")
         base_sym = {}
@@ -153,6 +160,18 @@ def execute(trace: dict) -> Result:
                     base_sym[kind] = step_symbolic(uspec, canon_ops, refs, values, opts, kind)
                 compare(base_sym[kind], step_symbolic(u2, var["build"], refs, values, opts, kind), what + f" ({kind})")
                 res.probes[f"variant_compared:{kind}"] += 1
+            if var.get("inplace") and (var.get("rename") or var.get("scale")):
+                # the same renaming / scaling applied *in place* to the already stepped canonical
+                # network objects, which are then stepped again from the same values
+                U0, net0 = used
+                for r, name in (var.get("rename") or {}).items():
+                    if r in U0.objs:
+                        U0.objs[r].name = name
+                for l in [x for _, x, _ in topo["links"]]:
+                    U0.objs[l].turnrate = uspec["links"][int(l[1:])]["turnrate"] * (var.get("scale") or {}).get(l, 1.0)
+                again = step_numeric_on(U0, net0, values, opts, zero_d)
+                compare(base, again, what + " applied in place to the used canonical network (numpy)")
+                res.faults["inplace_transform_after_step"] += 1
             if var.get("rename"):
                 res.faults["rename:" + var["rename_mode"]] += 1
             if var.get("scale"):
@@ -263,6 +282,7 @@ def generate(prop: str, run_seed: int, tier: str = "quick") -> dict:
         if rng.random() < (0.25 if tier == "quick" else 0.5):
             also.append(rng.choice(["sx", "mx"]))
         var["also"] = also
+        var["inplace"] = rng.random() < 0.5
         variants.append(var)
     cfg = {"topology": topo, "vals": rng.getrandbits(32), "opts": opts,
            "zero_d": True if (dyn.has_merging_ramp(topo, U) and "delta" in opts) else rng.random() < 0.3}
@@ -279,6 +299,8 @@ def simplify_op(var: dict):
                 v = dict(var); v["scale"] = {a: b for a, b in var["scale"].items() if a != k}; yield v
     if var.get("also"):
         yield dict(var, also=[])
+    if var.get("inplace"):
+        yield dict(var, inplace=False)
 
 
 def simplify_trace(trace: dict):
@@ -299,7 +321,7 @@ TIERS = {
     "C14": {
         "quick": {"runs": 12000, "selftest": 16, "chunk": 200, "wall_cap": 900, "run_timeout": 120},
         "thorough": {"runs": 400000, "selftest": 64, "chunk": 1000, "wall_cap": 3300, "run_timeout": 120,
-                     "expect_probes": ["schedule_permutation", "turnrate_scale", "rename:fresh", "rename:dup", "rename:permute",
+                     "expect_probes": ["schedule_permutation", "turnrate_scale", "inplace_transform_after_step", "rename:fresh", "rename:dup", "rename:permute",
                                        "variant_compared:numpy", "variant_compared:sx", "variant_compared:mx",
                                        "share_checked:one-entering", "share_checked:several-entering", "topology:merge",
                                        "topology:bifurcation_1in", "topology:bifurcation_multi_in", "topology:interior_ramp"]},
@@ -311,7 +333,7 @@ RULES = {
     "scheduler, each through a random API route (node-first or implied nodes, add_link/add_links/add_path, origins and "
     "destinations before or after their links, repeated attachment of the same object), under a renaming (fresh, all-equal, "
     "permuted, long names) and per-node positive scale factors (1e-3..1e3) on the turn rates of the leaving links; all "
-    "stepped with the same per-element values under NumPy and, on a sample, SX/MX. Non-trivial = at least one variant "
+    "stepped with the same per-element values under NumPy and, on a sample, SX/MX; on half of the variants the same renaming and scaling are also applied in place to the already stepped canonical network, which is stepped again. Non-trivial = at least one variant "
     "compared with the canonical build; distinct = distinct (number of builders, sequence of construction calls, renaming "
     "mode, scaled or not).",
 }
